@@ -460,8 +460,14 @@ def splice_cases(draw):
         stop = draw(st.one_of(st.sampled_from(cands), st.integers(0, n)))
         if stop <= ins:
             stop = None
+    align = draw(st.booleans())
+    if draw(st.integers(0, 5)) == 0:
+        # 'sp word sp': the word is replaced, and the interval before it ends exactly where the replaced region starts
+        c = sorted(draw(st.lists(st.integers(0, n), min_size=4, max_size=4, unique=True)))
+        ivs = [[c[0], c[1], "w0"], [c[1], c[2], "w1"], [c[2], c[3], "w2"]]
+        ins, stop, align = c[1], c[2], False
     return {"width": width, "rate": rate, "samples": s, "segment": seg, "intervals": ivs, "points": pts,
-            "insert": ins, "stop": stop, "align": draw(st.booleans()), "second": draw(st.one_of(st.none(), st.integers(0, 19))),
+            "insert": ins, "stop": stop, "align": align, "second": draw(st.one_of(st.none(), st.integers(0, 19))),
             "near": draw(st.booleans()), "same_label": draw(st.integers(0, 2)) == 0}
 
 
